@@ -23,7 +23,7 @@ ASSUMPTIONS = ['R (mon/refbufr) is a correct reading of FM-94 for the shapes of 
                'grey shapes of DESIGN 2.3 are excluded (R answers Unsupported)',
                'floats compared within 4 ulp of the exact rational']
 BUDGET = {'quick': 45, 'thorough': 600}
-QUOTA = {'quick': 450, 'thorough': 9000}   # random cases per shard
+QUOTA = {'quick': 1100, 'thorough': 12000}   # random cases per shard
 REQUIRED = {'quick': {'evaluations': 2000, 'shape_cases_compared': 150, 'corpus_compared': 10,
                       'compressed_compared': 300, 'r_self_ok': 1000},
             'thorough': {'evaluations': 40000, 'shape_cases_compared': 150, 'corpus_compared': 100,
@@ -43,8 +43,6 @@ def classify(msg, d, decoder):
     """mechanism signature of a divergence (never random values)."""
     k, why = d[0], d[1]
     mode = 'c' if msg.compressed else 'u'
-    if msg.noncanon:
-        return 'decode/%s/%s/noncanonical-code-table-unit-under-201-202-207' % (mode, why)
     if not msg.compressed and msg.nsub > 1:
         # does every subset decode correctly when it stands alone?  -> inter-subset state leak
         alone_ok = True
@@ -58,6 +56,8 @@ def classify(msg, d, decoder):
                 alone_ok = False
         if alone_ok:
             return 'decode/u/inter-subset-state-leak'
+    if msg.noncanon:
+        return 'decode/%s/%s/noncanonical-code-table-unit-under-201-202-207' % (mode, why)
     fk = ''
     if why == 'values' and k is not None:
         meta = msg.subsets[k].meta[d[2]]
